@@ -2,7 +2,7 @@
    Routing is Model/Args.v (HelpRequest::from_command); the help text is Model/Derive.v (the code derive(Help) emits); as for C09 the
    tie between the proc-macro and the model is established on the declarations generated and compiled each run. *)
 From EC Require Import Base Generated.Codes Model.Args Model.Writer Model.Cli Model.Derive Spec.ArgSpec Spec.Framing Spec.Session
-  Proofs.ArgsProofs Proofs.DeriveProofs.
+  Proofs.ArgsProofs Proofs.DeriveProofs Proofs.HelpProofs.
 
 (* routing: `help` alone lists everything; `help <value> ...` asks about that command with the remaining tokens; any other command
    is a help request iff one of its classified arguments (hence before any `--`, also inside a cluster) is --help or -h *)
@@ -46,6 +46,62 @@ Theorem C12_command_help : forall fuel parent cmds name args c, find_cmd cmds na
   cmd_help_enum (S fuel) parent cmds name args = Some (Some (own_help_hops parent c)).
 Proof. exact help_enum_leaf. Qed.
 Print Assumptions C12_command_help.
+
+(* nested sub-command path: `help <cmd> <sub> rest` / `<cmd> <sub> ... --help`: when the first token after a command that has
+   sub-commands is a plain value, help continues in the sub-command enum with that value as the command, the rest as its arguments and
+   the command's name appended to the path of the usage line; with nothing after it the command's own help is printed *)
+Theorem C12_subcommand_path : forall f parent cmds name v rest c o t subs,
+  find_cmd cmds name = Some c -> c_sub c = Some (o, t, subs) -> classify_tok false v = ([Value v], false) ->
+  cmd_help_enum (S f) parent cmds name (v :: rest) = cmd_help_enum f (parent ++ [HWrite (c_name c); HWrite [32]]) subs v rest.
+Proof. exact help_enum_descend. Qed.
+Print Assumptions C12_subcommand_path.
+Theorem C12_command_with_subcommands : forall f parent cmds name c o t subs,
+  find_cmd cmds name = Some c -> c_sub c = Some (o, t, subs) ->
+  cmd_help_enum (S f) parent cmds name [] = Some (Some (own_help_hops parent c)).
+Proof. exact help_enum_self. Qed.
+Print Assumptions C12_command_with_subcommands.
+
+(* "in full": what a command's own help contains (Infix x l: x occurs contiguously in l; element_bytes: one list line - two blanks, name,
+   padding to the column width, two blanks, text, CR LF). The description comes first; the usage line shows "Usage: ", the whole path
+   of parent commands and the command's name, and names every positional argument; every positional argument has its line with usage
+   name and help text; every option and flag has its line with short and long name, value name in <> or [] and help text, and -h, --help
+   is always listed; every sub-command is listed with its name and summary. For every declaration, every parent path. *)
+Theorem C12_description_first : forall parent c l, c_long c = Some l ->
+  exists r, hops_bytes (own_help_hops parent c) = lf_to_crlf l ++ [13; 10] ++ r.
+Proof. exact own_help_description. Qed.
+Print Assumptions C12_description_first.
+Theorem C12_usage_path : forall parent c,
+  Infix (lf_to_crlf [85;115;97;103;101;58] ++ [32] ++ hops_bytes parent ++ lf_to_crlf (c_name c)) (hops_bytes (own_help_hops parent c)).
+Proof. exact own_help_usage. Qed.
+Print Assumptions C12_usage_path.
+Theorem C12_usage_positional : forall parent c d, c_sub c = None -> In d (positionals (c_args c)) ->
+  Infix ([32] ++ lf_to_crlf (full_name d)) (hops_bytes (own_help_hops parent c)).
+Proof. exact own_help_usage_positional. Qed.
+Print Assumptions C12_usage_positional.
+Theorem C12_every_positional : forall parent c d, In d (positionals (c_args c)) ->
+  Infix (element_bytes (full_name d) (odefault (a_help d)) (max_len (map full_name (positionals (c_args c))))) (hops_bytes (own_help_hops parent c)).
+Proof. exact own_help_positional. Qed.
+Print Assumptions C12_every_positional.
+Theorem C12_every_option : forall parent c d p, In d (c_args c) -> option_line d = Some p ->
+  Infix (element_bytes (fst p) (snd p) (max_len (map fst (option_lines (c_args c))))) (hops_bytes (own_help_hops parent c)).
+Proof. exact own_help_option. Qed.
+Print Assumptions C12_every_option.
+Theorem C12_help_option_listed : forall parent c,
+  Infix (element_bytes [45;104;44;32;45;45;104;101;108;112] [80;114;105;110;116;32;104;101;108;112] (max_len (map fst (option_lines (c_args c)))))
+        (hops_bytes (own_help_hops parent c)).
+Proof. exact own_help_help_option. Qed.
+Print Assumptions C12_help_option_listed.
+Theorem C12_subcommands_listed : forall parent c o t subs sc, c_sub c = Some (o, t, subs) -> In sc subs ->
+  Infix (element_bytes (c_name sc) (odefault (c_short sc)) (max_len (map c_name subs))) (hops_bytes (own_help_hops parent c)).
+Proof. exact own_help_subcommands. Qed.
+Print Assumptions C12_subcommands_listed.
+(* `help` on a command group: exactly the listings (C12_list_complete) of the members that are visible and not empty, in declaration
+   order, separated by a blank line - each of them occurs, a hidden one contributes nothing *)
+Theorem C12_group_listing : forall ms,
+  list_commands_set (SGroup ms) = join_blocks (map (fun m : bool * enumdecl => list_commands_hops (snd m)) (filter listed ms)) /\
+  forall m, In m ms -> listed m = true -> Infix (hops_bytes (list_commands_hops (snd m))) (hops_bytes (list_commands_set (SGroup ms))).
+Proof. intros ms. split; [apply help_list_group_blocks|intros m; apply help_list_group_member]. Qed.
+Print Assumptions C12_group_listing.
 
 Example C12_nonvacuous :
   let sub := Cmd [103] (Some [71]) (Some [71]) [] None in
